@@ -208,7 +208,12 @@ func (ex *Exec) runFrame(fr *Frame) {
 		r := recover()
 		tp, ok := r.(*targetPanic)
 		if !ok {
-			panic(r) // engine-level condition: propagate untouched
+			switch r.(type) {
+			case unsupported, assumeFailed, pathAbort, unwindFail, solverDied, schedAbort:
+				panic(r) // engine-level condition: propagate untouched
+			}
+			// a fault inside the engine itself (unexpected value shape): make it an unsupported construct with context
+			panic(unsupported{fmt.Sprintf("engine fault in %s at %s: %v", fr.fn, ex.posOf(fr, fr.curPos), r)})
 		}
 		fr.panicking = true
 		fr.panicVal = tp
@@ -734,4 +739,13 @@ func fnName(fn *ssa.Function) string {
 func shortFn(s string) string {
 	s = strings.ReplaceAll(s, "go.flow.arcalot.io/pluginsdk/", "")
 	return s
+}
+
+// lookupMethod finds an exported method of t by name (nil if there is none).
+func (ex *Exec) lookupMethod(t types.Type, name string) *ssa.Function {
+	sel := ex.prog.MethodSets.MethodSet(t).Lookup(nil, name)
+	if sel == nil {
+		return nil
+	}
+	return ex.prog.MethodValue(sel)
 }
